@@ -104,6 +104,22 @@ def worker(kp, job):
                             viol.append(('moved-only-pitch', f'{cls}{iv} {d}: {cell.text!r} became {got!r}, expected {exp!r}', w))
                             done = True
                             break
+            # the copy has the structure of the source: same stages, measure index, header stage, spine count
+            def shape(x):
+                try:
+                    hs = x.get_header_stage()
+                    hs = len(hs) if isinstance(hs, list) else hs
+                except Exception as e:
+                    hs = 'err:' + type(e).__name__
+                try:
+                    sc = x.get_spine_count()
+                except Exception as e:
+                    sc = 'err:' + type(e).__name__
+                return ([len(st) for st in x.tree.stages], list(x.measure_start_tree_stages), hs, sc,
+                        [[n.stage for n in st] for st in x.tree.stages] == [[k] * len(st) for k, st in enumerate(x.tree.stages)])
+            if shape(res) != shape(doc):
+                viol.append(('grid', f'{iv} {d}: the transposed document has another structure than the source (stage widths / measure index / '
+                             f'header stage / spine count / stage numbers): {str(shape(res))[:120]} vs {str(shape(doc))[:120]}', w))
             if after != before:
                 viol.append(('source-unchanged', f'source-modified: {iv} {d}: the exports of the source document changed after the call', w))
             if core_doc and not [v for v in viol if v[0] != 'source-unchanged']:
